@@ -4,6 +4,6 @@ cd /verif
 for d in seeded/*/; do
   id=$(basename $d)
   prop=$(python3 -c "import json; print(json.load(open('$d/meta.json'))['breaks_property'])")
-  out=$(tools/seedtest.sh /verif/$d/patch.diff $prop 2>&1 | grep -E "VIOLATION|no alarm|does not apply|local changes" | cut -c1-200)
+  out=$(tools/seedtest.sh /verif/$d/patch.diff $prop 2>&1 | grep -E "VIOLATION|no alarm|does not apply|local changes" | cut -c1-400)
   echo "$id -> $out"
 done
